@@ -11,12 +11,6 @@ import LLTD.Model.Event
 namespace LLTD.TEvEq
 open LLTD LLTD.CSem LLTD.TWEq
 
-theorem int_beq (x y : Nat) : (((x : Int) == (y : Int)) : Bool) = decide (x = y) := by
-  by_cases h : x = y
-  · simp [h]
-  · have : ¬ ((x : Int) = (y : Int)) := by omega
-    simp [h, this]
-
 /-- `mac_equal` as translated compares the first six bytes -/
 theorem mac_equal_eq (env : TW.Env) (a b : List Nat) (ha : 6 ≤ a.length) (hb : 6 ≤ b.length) :
     (TW.mac_equal env a b).ret = (a.take 6 == b.take 6) := by
@@ -102,15 +96,6 @@ def entryBytes (e : Entry) : List Nat := e.mac ++ (le 2 e.gen ++ (le 2 e.seq ++ 
 /-- `session_table_find` as the model has it: the first valid slot with this (address, generation) -/
 def findOracle (tbl : Option Table) : List Nat → Nat → Nat → Option (List Nat) :=
   fun m g _ => (existingOf tbl (m.take 6) g).map entryBytes
-
-theorem unle_rd1 (img : List Nat) (off : Nat) (h : off < img.length) : unle (rd img off 1) = byteAt img off := by
-  have hd : (img.drop off).length ≥ 1 := by rw [List.length_drop]; omega
-  match hm : img.drop off, hd with
-  | x :: t, _ =>
-    have h1 : (img.drop off)[0]? = img[off + 0]? := List.getElem?_drop
-    rw [hm] at h1
-    have h2 : img[off]? = some x := by simpa using h1.symm
-    simp [rd, hm, unle, byteAt, List.getD, h2]
 
 theorem int_bne (x y : Nat) : (((x : Int) != (y : Int)) : Bool) = (x != y) := by
   unfold bne
